@@ -8,6 +8,8 @@ Request `rec <rsEmpty 0|1> <op>*`, ops:
 `L:<hex>` (`$0 = s`), `R:<hex>` (record read from input), `G:<num>` (read `$i`), `S:<num>:<hex>` (`$i = v`), `N` (read NF),
 `Mn:<num>` (NF = number), `Ms:<hex>:<num>` (NF = string with numeric value), `F:<hex>:<re|!>` (FS), `O:<hex>` (OFS),
 `C:<hex byte>` / `C:-` / `C:!` (OUTPUTMODE csv with separator / default / invalid), `D` (dump: NF, `$0`, `$1..$NF`),
+`A~<v|g|m>~<hex record|->~<op word>` (a `var=value` operand performing that op, reached by `getline var` / `getline` / the main
+loop; answer `g:1`, `g:-1` (rejected, program continues) or, for the main loop, `_` / the error),
 `I:<num>:<hex>` (`$i++`, `$i op= k`: read `$i`, then assign the given result), `J:<int>` (`NF++`, `NF += d`: read NF, assign NF+d).
 `<num>` is `n`, `n/d`, `nan`, `inf`, `-inf`.  Answer: one token per observation:
 `_` (no output), `v:<isTrueStr>:<hex>`, `n:<hex shown>:<num>`, `e:<kind>:<int>` (then the history stops).
@@ -52,8 +54,12 @@ inductive Item where
   | dump
   | rmw (i : Num) (v : Bytes)   -- `$i++`, `$i += k` …: `getField i` (value used by the VM), then `setField i v`
   | nfIncr (d : Int)            -- `NF++`, `NF += d`: `getSpecial(NF)`, then `setSpecial(NF, num(v + d))`
+  | noop                        -- `getline var` / `getline var < file`: reads a record into a variable, the current record is untouched
+  | operand (route : String) (rec : Option Bytes) (o : Op Re)
+    -- a `var=value` command-line operand reached by `getline var` ("v"), plain `getline` ("g") or the main loop ("m");
+    -- `rec` = the record that the reader then delivers when the assignment is accepted ("g", "m")
 
-def parseOp (w : String) : Option Item :=
+def parseOpColon (w : String) : Option Item :=
   match w.splitOn ":" with
   | ["L", h] => (fromHex h).map (fun b => .op (.setLine b true))
   | ["R", h] => (fromHex h).map (fun b => .op (.setLine b false))
@@ -77,10 +83,23 @@ def parseOp (w : String) : Option Item :=
       | some [c] => some (.op (.setOutMode (.csv c)))
       | _ => none
   | ["D"] => some .dump
+  | ["K"] => some .noop
   | ["I", n, h] => match parseNum n, fromHex h with
     | some x, some b => some (.rmw x b)
     | _, _ => none
   | ["J", d] => (parseInt d).map .nfIncr
+  | _ => none
+
+/-- `A~<route>~<hex record|->~<op word>` wraps the op word of the assignment the operand performs -/
+def parseOp (w : String) : Option Item :=
+  match w.splitOn "~" with
+  | ["A", route, rec, opw] =>
+    match parseOpColon opw with
+    | some (.op o) =>
+      if route = "v" then some (.operand route none o)
+      else (fromHex rec).map (fun b => .operand route (some b) o)
+    | _ => none
+  | [w'] => parseOpColon w'
   | _ => none
 
 def isErr : Out → Bool
@@ -106,6 +125,17 @@ def runItems (r : Rec Re) : List Item → List String → List String
       | _ => .nan
     let (r2, out) := step findAll r1 (.setNF (.num x))
     if isErr out then (showOut out :: acc).reverse else runItems r2 rest (showOut out :: acc)
+  | .noop :: rest, acc => runItems r rest ("g:1" :: acc)
+  | .operand route rec o :: rest, acc =>
+    let (r1, out) := step findAll r o
+    if isErr out then
+      -- rejected: fatal in the main loop; `getline` turns it into the return value -1 and the program goes on
+      if route = "m" then (showOut out :: acc).reverse else runItems r1 rest ("g:-1" :: acc)
+    else
+      let r2 := match rec with
+        | some b => (step findAll r1 (.setLine b false)).1
+        | none => r1
+      runItems r2 rest ((if route = "m" then "_" else "g:1") :: acc)
   | .dump :: rest, acc =>
     let (r1, o1) := step findAll r .getNF
     let (r2, o2) := step findAll r1 (.getField (.rat 0 1))
